@@ -1,10 +1,10 @@
 import json, os, re, sys
 sys.path.insert(0, os.path.dirname(os.path.abspath(__file__)))
-from notes_r2 import NOTE_R2, NOTE_R3, NOTE_R4, NOTE_R5, NOTE_R6, NOTE_R7
+from notes_r2 import NOTE_R2, NOTE_R3, NOTE_R4, NOTE_R5, NOTE_R6, NOTE_R7, NOTE_R8
 src=open(os.path.join(os.path.dirname(os.path.abspath(__file__)), 'mktable.py')).read()
 ns={}
 exec(src[src.index('NOTE = {'):src.index('rows=[]')], ns)
-NOTE=dict(ns['NOTE']); NOTE.update(NOTE_R2); NOTE.update(NOTE_R3); NOTE.update(NOTE_R4); NOTE.update(NOTE_R5); NOTE.update(NOTE_R6); NOTE.update(NOTE_R7)
+NOTE=dict(ns['NOTE']); NOTE.update(NOTE_R2); NOTE.update(NOTE_R3); NOTE.update(NOTE_R4); NOTE.update(NOTE_R5); NOTE.update(NOTE_R6); NOTE.update(NOTE_R7); NOTE.update(NOTE_R8)
 def key(d):
     m=re.match(r'(C\d+)-(?:r(\d))?m(\d)', d); return (m.group(1), int(m.group(2) or 1), int(m.group(3)))
 rows=[]
